@@ -209,7 +209,7 @@ func TestC13Sched(t *testing.T) {
 		}
 		w.Flush()
 		f.Close()
-		o.summary(map[string]any{"traces": nTraces, "events": nEvents, "deadlocks": nDeadlock, "scenarios_truncated": nTrunc,
+		o.summary(map[string]any{"traces": nTraces, "events": nEvents, "deadlocks": nDeadlock, "scenarios_truncated": nTrunc, "transient_blocks_resolved_by_patience": rescuedByPatience,
 			"traces_with_several_procs_in_storage": nOverlap, "violations": o.nV})
 		os.Exit(0)
 	})
